@@ -14,6 +14,12 @@ RULE = ('T2: URI.join evaluated by the Gallina model (vm_compute; the reference 
 	'{"", ".", "..", g, h} with and without query, query-only, fragment-only, empty, random longer ones; the Coq transcription of RFC 5.2.2 against the '
 	'expected results printed in RFC 3986 section 5.4 and against an independent Python transcription. Oracle: join(base, ref) compared component by component with '
 	'the Python transcription of 5.2.2 (Appendix B parse) followed by case/port/slash normalisation written independently of the implementation. '
+	'Added input classes: decorated dot segments (".;x", "..;", ";..", "..%20", ".%2f" ... over 20 marks) in every position of every reference shape and in the base path; '
+	'percent-encoded octets (reserved, unreserved, UTF-8 of NFC/NFD/compatibility/astral characters) in fragment, query, path, user info and host of fragment-only, query-only, '
+	'relative, absolute-path, network-path and scheme-qualified references and of the base (the oracle decodes with its own RFC 3986 2.1 decoder; a query with "%" or "+" is '
+	'expected in the spelling URI.parse gives it); every join repeated with the reference as str, URI object, tuple and keywords (same result, arguments neither returned nor '
+	'modified); degenerate and re-encoded references; every scheme of URI.SCHEMES read at run time as base and reference scheme; lengths 11..65536 (> 4200 oracle-only); '
+	'kind seq: one base object joined several times, modified through every public setter and replaced by its own results, against a fresh object built from the same components. '
 	'non-trivial = distinct (base, reference) whose result differs from the base')
 EXHAUSTIVE = {'quick': True, 'thorough': True}
 TRUSTED = ['harness/tables/urinorm.py (T1: URI.SCHEMES -> PORT, URI.PORT, normalize() probe)',
@@ -31,6 +37,7 @@ WITNESSES = [
 	('D20d-scheme-ref-hostless-dots', {'k': 'join', 'base': BASE, 'ref': 'g:x/../y'}),
 	('D20d-scheme-ref-hostless-dots', {'k': 'join', 'base': BASE, 'ref': 'g:/../y'}),
 	('D20d-scheme-ref-hostless-dots', {'k': 'join', 'base': BASE, 'ref': 'g:.'}),
+	('D20e-separator-only-query', {'k': 'join', 'base': BASE, 'ref': '?&', 'nocoq': True}),
 ]
 
 BASES = ['http://a/b/c/d;p?q', 'http://a', 'http://a/', 'http://a/b/', 'http://a/b?q', 'https://a:8/x/y/', 'ftp://u:p@h/a/b', 'http://h:8080/x',
@@ -90,6 +97,182 @@ def gen_cases(rng, tier):
 	for b in rb:
 		for r in refs:
 			cases.append({'k': 'resolve', 'base': b, 'ref': r})
+	cases.extend(gen_classes(rng, tier))
+	return cases
+
+
+# ---------------------------------------------------------------- input classes added after the seeded rounds
+# (decorated dot segments, percent-encoded octets in every component of every reference shape, the reference given
+# as bytes / str / URI / tuple / keywords, base objects reused and modified between joins, Unicode forms, lengths,
+# the scheme registry of the tree, degenerate references, re-encoded references)
+
+UNI = ['e\u0301', '\u00e9', '\u212b', '\u00c5', 'A\u030a', '\u2126', '\u03a9', '\u212a', '\u1112\u1161\u11ab', '\ud55c', '\uf900', '\u8c48', '\U0001d400', '\U00010400', '\ufb01']
+MARKS = [';', ',', '=', '!', '~', '_', '-', '$', '&', "'", '(', ')', '*', '+', '@', '%20', '%3B', '%2f', '%00', '%C3%A4']
+LIMITS = [11, 12, 75, 76, 255, 256, 1023, 1024, 4095, 4096]
+LIMITS_BIG = [8190, 8191, 8192, 65535, 65536]
+COQ_MAX = 4200
+ENC = ['%20', '%23', '%3F', '%3f', '%2F', '%2f', '%25', '%C3%A4', '%c3%a4', '%7e', '%7E', '%41', '%3B', '%40', '%3A', '%26', '%3D', '%2B', '%22', '%00', '%E2%84%AB', 'e%CC%81', '%F0%9D%90%80']
+DEGEN_REFS = [';', ';;', ';/..', ';/../;', '/;', '/;/', '..;', '.;', ';..', ';.', '?;', '#/', '#?', '##', '?#?', '#%23', '?%3F', '?%26', '?%3D%3D', '//o;x', '//@o', '//o:', '//u:@o', '//:@o',
+	'//o:/', '//o?', '//o#', '//o/?#', "'", '"', '%', '%%', '%zz', '%2', '%25', ',', '=', '&', '!', '*', '~', '_', '-', '$', '(', ')', '+', '@', 'g,h', 'g=h/..', "g'/.", '/%', '/%zz/..', 'g/%', '?%', '#%', '#%zz', '?%zz',
+	'g?/..', 'g#/..', 'g?..', 'g#..', '?..', '#..', '?.', '#.', '?/', '/?/', '/#/', '//o?/..', '//o#/..', './?', '../#', './', '././', '../..', '../../', '../../../../../../..', './././././.', '/./././.', '/../../../..',
+	'g/h/../../../..', 'g/./h/./..', '%20', '%20/..', '../%20', 'g%20h', '/%20', '//o/%20', '?%20', '#%20', '+', '?+', '#+', '?a+b', '?a%2Bb', '?a=%26', '?%C3%A4=%C3%B6', '?e%CC%81', '#e%CC%81', '#%C3%A9']
+
+
+SEP_ONLY_REFS = ['?&', '?&&', '?=', '?=&=', 'g?&', '/g?=', '//o/p?&', '?&#s']
+# Kept apart from DEGEN_REFS: a query made only of form separators ('?&', '?&&', '?=', '?=&=') is known finding D20e of the unchanged tree.
+# URI.parse re-encodes every query through the form-urlencoded codec, which turns '&', '&&', '=' into the empty query and '=&=' into '&';
+# an empty query is then indistinguishable from an undefined one (known finding D20c), so join(b'http://a/b?q', b'?&') keeps '?q' (RFC: 'http://a/b?&').
+
+
+def unq(text):
+	"""percent-decoding written from RFC 3986 section 2.1 (a '%' not followed by two hex digits stays)"""
+	raw = text.encode('utf-8')
+	out = bytearray()
+	i = 0
+	hexd = b'0123456789abcdefABCDEF'
+	while i < len(raw):
+		if raw[i] == 0x25 and i + 2 < len(raw) + 0 and len(raw) - i >= 3 and raw[i + 1] in hexd and raw[i + 2] in hexd:
+			out.append(int(raw[i + 1:i + 3], 16))
+			i += 3
+		else:
+			out.append(raw[i])
+			i += 1
+	return bytes(out).decode('utf-8')
+
+
+def _enc_some(rng, text, p=0.3):
+	"""the same text with some unreserved characters (never a dot) percent-encoded, random hex case"""
+	out = []
+	i = 0
+	while i < len(text):
+		ch = text[i]
+		if ch == '%':
+			out.append(text[i:i + 3])
+			i += 3
+			continue
+		if (ch.isalnum() and ch.isascii() or ch in '-_~') and rng.random() < p:
+			out.append(('%%%02x' if rng.random() < 0.5 else '%%%02X') % ord(ch))
+		else:
+			out.append(ch)
+		i += 1
+	return ''.join(out)
+
+
+def _decorated():
+	out = []
+	for d in ('.', '..'):
+		for m in MARKS:
+			out.extend([d + m, d + m + 'x', m + d])
+	return out
+
+
+def _registry():
+	C = U.classes()
+	return [((k.decode('ascii') if isinstance(k, bytes) else k), cls.__name__, cls.PORT) for k, cls in sorted(C['URI'].SCHEMES.items())]
+
+
+def _alt_case(s):
+	return ''.join(ch.upper() if i % 2 else ch.lower() for i, ch in enumerate(s))
+
+
+def gen_classes(rng, tier):
+	big = tier == 'thorough'
+	mul = 5 if big else 1
+	cases = []
+	seen = set()
+
+	def add(b, r, **kw):
+		if (repr(b), r) in seen:
+			return
+		seen.add((repr(b), r))
+		c = {'k': 'join', 'base': b, 'ref': r}
+		c.update(kw)
+		cases.append(c)
+	# -- (5)/(C12-7) segments that only look like dot segments, in every position of every reference shape
+	for seg in _decorated():
+		for tpl in ('%s', '%s/g', 'g/%s', 'g/%s/h', '/p/%s/q', '/%s', '//o/p/%s/q', '//o/%s', 'z://o/p/%s', '../%s', './%s/..', '%s?y#s'):
+			if tpl.startswith('%s') and seg[0] in '@':
+				continue
+			add(BASE, tpl % seg)
+		add('http://a/b/', 'g/%s' % seg)
+		add('http://a', '%s/g' % seg)
+		add('http://a/b/%s/d' % seg, '../g')     # ... and in the base path
+		add('http://a/b/%s/d' % seg, '.')
+	# -- (C12-8) percent-encoded octets in every component of every reference shape (fragment-only, query-only, empty path, relative,
+	#    absolute-path, network-path, scheme-qualified); Unicode forms as UTF-8 octets (2); bases that carry them
+	encb = ['http://a/b/c/d;p?q', 'http://a/b%20c/d%2Fe/f?q%20r', 'http://u%40v:p%3aw@a/%C3%A4/e%CC%81/', 'http://a']
+	for e in ENC:
+		for tpl in ('#%s', '#a%sb', '?%s', '?a%sb=c', '?y#%s', '%s', 'g%sh', 'g/%s', '%s/../g', 'g;%s', '/%s', '/g/%s/', '//o/%s', '//u%s:p%s@o/x', '//o?%s', '//o#%s', 'z://o/%s#%s', 'z://u%s@o', 'g?y#%s', '/g#%s', '../g?%s#%s', '.#%s', '..?%s'):
+			r = tpl.replace('%s', e)
+			if e == '%00' and '?' in r:
+				continue   # a control character in the query is refused by the parser (component property)
+			for b in encb[:2] if not big else encb:
+				add(b, r)
+		add(encb[2], '#' + e)
+		add(encb[2], 'g' + e)
+		if e != '%00':   # a control character in the query is refused by the parser (component property)
+			add(encb[3], '?' + e)
+	for u in UNI:
+		e = ''.join('%%%02X' % x for x in u.encode('utf-8'))
+		for tpl in ('#%s', '?%s=%s', 'g/%s', '/%s/..', '//u%s@o/%s', 'z://o/%s?%s#%s', '%s'):
+			add(rng.choice(encb), tpl.replace('%s', e))
+	# -- (5) degenerate references
+	for r in DEGEN_REFS:
+		for b in (BASE, 'http://a', 'http://a/b/?q%20r'):
+			add(b, r)
+	# a query made only of form separators (known finding D20e): oracle-only, the join model takes the parsed slots as given
+	for r in SEP_ONLY_REFS:
+		for b in (BASE, 'http://a', 'http://a/b/?q%20r'):
+			cases.append({'k': 'join', 'base': b, 'ref': r, 'nocoq': True})
+	# -- (6) references of the existing classes, re-encoded (unreserved characters percent-encoded): same result
+	alpha = RSEGS + ['..', '.', 'g', 'i;x', 'j.k', '...', 'g~h', 'k-l_m']
+	for _ in range(800 * mul):
+		r = U.rpath(rng, 1, 6, alpha)
+		r = rng.choice(['', '', '/', '//o/', '//O:80/', 'z://u@o/', 'HTTP://Z/']) + _enc_some(rng, r + rng.choice(['', '', '?y', '?y=1&z=2', '#s', '?y#frag']))
+		add(rng.choice(BASES), r)
+	# -- (4) every scheme of the registry of the tree: as base scheme and as reference scheme, several letter cases, default ports
+	for name, clsname, port in _registry():
+		b = '%s://a/b/c/d;p?q' % name
+		for r in ('g', '../g', '/g', '//o', '//o:%d/x' % port, '//o:%d' % (port + 1), '?y', '#s', '', '%s:g' % name, '%s://z/a/../b' % name.upper(), '%s://Z:%d/' % (_alt_case(name), port),
+				'%s://z:%d' % (name, port + 1), '%s:' % name.title(), '%s:/x/y' % name):
+			add(b, r)
+			add(BASE, r)
+		add({'text': '%s://A/b/c' % name.upper()}, '../g')   # out of the domain (not normalised): correspondence only
+		add({'text': '%s://a:%d/b/c' % (name, port)}, '//o/x')
+	# -- (3) lengths at and around limits in every position of the reference and of the base
+	for n in LIMITS + LIMITS_BIG:
+		nocoq = n > COQ_MAX
+		refs = ['g' * n, '../' * (n // 3) + 'g', 'g/' * (n // 2), './' * (n // 2), 'g/../' * (n // 5) + 'h', '?' + 'y' * n, '#' + 's' * n, '/' + 'g' * n, '//' + 'o' * min(n, 63) + '/' + 'p' * n,
+			'//' + 'u' * n + '@o', 'z' * min(n, 4096) + '://o/x', ';' * n, 'g;' + 'x' * n + '/..', '%41' * (n // 3), '#' + '%20' * (n // 3)]
+		if n > 4096 and not big:
+			refs = refs[:7]
+		for r in refs:
+			add(BASE, r, nocoq=nocoq)
+		add('http://a/' + 'b/' * (n // 2), '../' * (n // 4) + 'g', nocoq=nocoq)
+		add('http://a/' + 'b' * n, 'g', nocoq=nocoq)
+		add('http://a/b?' + 'q' * n, '#s', nocoq=nocoq)
+	# -- (1) one base object used for several joins and modified between them through every public way; a result used as the next base
+	for n in range(500 * mul):
+		ops = []
+		for _i in range(rng.randint(2, 5)):
+			r = rng.random()
+			if r < 0.6:
+				ref = rng.choice(['', '', '/', '//o/', 'z://o/']) + U.rpath(rng, 0, 4, alpha + ['..;x', 'g%20h', '%2f']) + rng.choice(['', '', '?y', '#s', '#a%20b', '?y%20z'])
+				ops.append(['join', ref, rng.choice(['bytes', 'bytes', 'str', 'obj', 'tuple', 'dict'])])
+			elif r < 0.7:
+				ops.append(['chain'])   # the last result becomes the base object
+			elif r < 0.8:
+				ops.append(['use', rng.choice(['normalize', 'eq', 'compose', 'abspath'])])
+			else:
+				f = rng.choice(['scheme', 'username', 'password', 'host', 'port', 'path', 'query_string', 'fragment', 'path_segments', 'tuple', 'parse'])
+				v = {'scheme': rng.choice(['http', 'https', 'ftp', 'x-y', 'HTTP']), 'username': rng.choice(['', 'u', 'e\u0301']), 'password': rng.choice(['', 'p']), 'host': rng.choice(['h', 'H', 'o.example', '[::1]']),
+					'port': rng.choice([None, '', 80, 8080, '443']), 'path': rng.choice(['', '/', '/x/y', '/x/y/', '/x/../y', '/a%2fb/c']), 'query_string': rng.choice(['', 'q', 'a=b']), 'fragment': rng.choice(['', 'f', 'a b']),
+					'path_segments': ['', rng.choice(['a', 'a/b', '..']), rng.choice(['', 'c'])], 'tuple': ['http', '', '', 'n', None, rng.choice(['/t/u', '/t/']), '', ''],
+					'parse': rng.choice(['http://m/v/w?x', 'https://m:444/v/', 'ftp://m'])}[f]
+				ops.append(['set', f, v])
+		if not any(o[0] == 'join' for o in ops):
+			ops.append(['join', 'g', 'bytes'])
+		cases.append({'k': 'seq', 'base': rng.choice(BASES), 'ops': ops})
 	return cases
 
 
@@ -110,6 +293,11 @@ def observe(c):
 		return {'t': list(U.rfc_resolve(U.parse5(U.RFC54_BASE), U.parse5(c['ref'])))}
 	if k == 'resolve':
 		return {'t': list(U.rfc_resolve(U.parse5(c['base']), U.parse5(c['ref'])))}
+	if k == 'seq':
+		try:
+			return _obs_seq(c)
+		except Exception as exc:
+			return {'err': U.exc_name(exc), 'msg': str(exc)[:200]}
 	try:
 		base = _mk(c['base'])
 		o = {'base': U.state(base)}
@@ -123,9 +311,101 @@ def observe(c):
 		o['out'] = U.state(j)
 		o['pub'] = U.public(j)
 		o['after'] = U.state(base)   # join must not modify the base
+		o['qc'] = _qcanon(c)
+		o['alt'] = _alt_joins(base, c['ref'], j)
 		return o
 	except Exception as exc:
 		return {'err': U.exc_name(exc), 'msg': str(exc)[:200]}
+
+
+def _qcanon(c):
+	"""canonical spelling of a query that carries percent-encoded octets or '+', as URI.parse stores it (the form-urlencoded
+	re-encoding of the query belongs to the component property); queries without them are expected verbatim"""
+	out = {}
+	qs = [U.parse5(c['ref'])[3]]
+	if isinstance(c['base'], str):
+		qs.append(U.parse5(c['base'])[3])
+	for q in qs:
+		if q and ('%' in q or '+' in q):
+			out[q] = U.classes()['URI'](b'http://x/?' + q.encode('utf-8')).query_string
+	return out
+
+
+def _refarg(way, ref):
+	C = U.classes()
+	if way == 'bytes':
+		return (ref.encode('utf-8'),), {}, None
+	if way == 'str':
+		return (ref,), {}, None
+	r = C['URI'](ref.encode('utf-8'))
+	if way == 'obj':
+		return (r,), {}, r
+	if way == 'tuple':
+		return (r.tuple,), {}, None
+	if way == 'dict':
+		return (), dict(r.dict), None
+	raise ValueError(way)
+
+
+def _alt_joins(base, ref, j):
+	"""the same reference handed over in every form join() accepts; the base object is reused"""
+	out = {'ident': j is base}
+	for way in ('str', 'obj', 'tuple', 'dict', 'bytes'):
+		try:
+			args, kw, robj = _refarg(way, ref)
+			before = U.state(robj) if robj is not None else None
+			jj = base.join(*args, **kw)
+			out[way] = {'out': U.state(jj), 'pub': U.public(jj), 'ident': jj is base or jj is robj, 'refsame': before is None or U.state(robj) == before}
+		except Exception as exc:
+			out[way] = {'err': U.exc_name(exc), 'msg': str(exc)[:200]}
+	out['after'] = U.state(base)
+	return out
+
+
+def _obs_seq(c):
+	C = U.classes()
+	base = _mk(c['base'])
+	steps = []
+	last = None
+	for op in c['ops']:
+		w = op[0]
+		if w == 'join':
+			before = U.state(base)
+			fresh = C['URI'](tuple(base.tuple))
+			rel = C['URI'](op[1].encode('utf-8'))
+			args, kw, robj = _refarg(op[2], op[1])
+			j = base.join(*args, **kw)
+			jf = fresh.join(op[1].encode('utf-8'))
+			steps.append({'b': before, 'rel': U.state(rel), 'out': U.state(j), 'fout': U.state(jf), 'after': U.state(base), 'ident': j is base or j is robj,
+				'refsame': robj is None or U.state(robj) == U.state(rel)})
+			last = j
+		elif w == 'chain':
+			if last is not None:
+				base = last
+		elif w == 'use':
+			if op[1] == 'normalize':
+				base.normalize()
+			elif op[1] == 'abspath':
+				base.abspath()
+			elif op[1] == 'compose':
+				try:
+					bytes(base)
+				except Exception:
+					pass
+			else:
+				bool(base == type(base)(base))
+		elif w == 'set':
+			if op[1] == 'tuple':
+				base.tuple = tuple(op[2])
+			elif op[1] == 'parse':
+				base.parse(op[2].encode('ascii'))
+			elif op[1] == 'path_segments':
+				base.path_segments = list(op[2])
+			else:
+				setattr(base, op[1], op[2])
+		else:
+			raise ValueError(w)
+	return {'steps': steps}
 
 
 def coq_case(c, o):
@@ -134,12 +414,17 @@ def coq_case(c, o):
 		return 'CResolve %s %s %s' % (U.coq_ref5(U.parse5(U.RFC54_BASE)), U.coq_ref5(U.parse5(c['ref'])), U.coq_ref5(U.parse5(c['want'])))
 	if k == 'resolve':
 		return 'CResolve %s %s %s' % (U.coq_ref5(U.parse5(c['base'])), U.coq_ref5(U.parse5(c['ref'])), U.coq_ref5(o['t']))
+	if k == 'seq' and 'steps' in o:
+		return ['CJoin %s %s %s %s' % (U.ltab([st['b']['t'][0], st['b']['t'][3], st['rel']['t'][0], st['rel']['t'][3]]), U.coq_state(st['b']), U.coq_state(st['rel']), U.coq_state(st['out']))
+			for st in o['steps']]
 	if 'harness_exception' in o:
 		return 'CResolve (Ref5 None None [] None None) (Ref5 None None [] None None) (Ref5 None None [x00] None None)'
 	if 'err' in o:
 		if o['err'].startswith('ref:') and not o['err'].startswith('ref:escape'):
 			return None   # the parser refuses the reference: nothing for the join model to do
 		return 'CResolve (Ref5 None None [] None None) (Ref5 None None [] None None) (Ref5 None None [x00] None None)'
+	if c.get('nocoq'):
+		return None   # length class beyond what a case file affords: oracle only
 	strings = [o['base']['t'][0], o['base']['t'][3], o['rel']['t'][0], o['rel']['t'][3]]
 	return 'CJoin %s %s %s %s' % (U.ltab(strings), U.coq_state(o['base']), U.coq_state(o['rel']), U.coq_state(o['out']))
 
@@ -156,12 +441,18 @@ def _split_authority(a):
 	return user, pw, host, (int(port) if port else None)
 
 
-def expected(t):
-	"""components of the RFC target after normalisation: case, default port, slash runs (written from the property text)"""
+def expected(t, qc=None):
+	"""components of the RFC target after normalisation: case, default port, slash runs, percent-encoded octets decoded
+	(an encoded slash stays data inside its segment) (written from the property text)"""
 	s, a, p, q, f = t
 	s = (s or '').lower()
 	user, pw, host, port = _split_authority(a) if a is not None else ('', '', '', None)
 	host = host.lower()
+	if '%' in (a or '') + p + (f or ''):
+		user, pw, f, host = unq(user), unq(pw), unq(f or ''), unq(host).lower()
+		p = '/'.join(unq(seg).replace('/', '%2f') for seg in p.split('/'))
+	if q and qc and q in qc:
+		q = qc[q]
 	if port is None:
 		port = U.DEFAULT_PORTS.get(s)
 	path = U.rfc_rds(U.collapse(p)) if p.startswith('/') else U.collapse(p)
@@ -198,6 +489,17 @@ def oracle(c, o):
 		return None if got == c['want'] else 'the harness transcription of RFC 5.2.2 gives %r for the RFC example %r (RFC: %r)' % (got, c['ref'], c['want'])
 	if k == 'resolve':
 		return None
+	if k == 'seq':
+		if 'err' in o:
+			return 'unexpected exception %s' % (o,)
+		for n, st in enumerate(o['steps']):
+			if st['after'] != st['b']:
+				return 'join modified the base URI (step %d of %r on %r): %r became %r' % (n, c['ops'], c['base'], st['b'], st['after'])
+			if st['out'] != st['fout']:
+				return 'join on a base object that was used/modified before (join %d of %r on %r) gives %r, a fresh object built from the same components %r gives %r' % (n, c['ops'], c['base'], st['out'], st['b']['t'], st['fout'])
+			if st['ident'] or not st['refsame']:
+				return 'join returned or modified one of its arguments (join %d of %r on %r)' % (n, c['ops'], c['base'])
+		return None
 	if not base_in_domain(c['base']):
 		if str(o.get('err', '')).startswith('escape'):
 			return 'unexpected exception %s' % (o,)
@@ -206,13 +508,30 @@ def oracle(c, o):
 		return 'join raised: %s' % (o,)
 	if o['after'] != o['base']:
 		return 'join modified the base URI'
-	want = expected(U.rfc_resolve(U.parse5(c['base']), U.parse5(c['ref'])))
+	want = expected(U.rfc_resolve(U.parse5(c['base']), U.parse5(c['ref'])), o.get('qc'))
 	got = o['pub']
 	for name, g, w in zip(NAMES, got, want):
 		if g != w:
 			return 'join(%r, %r) %s: got %r, RFC 3986 5.2.2 + normalisation gives %r (result %r, expected %r)' % (c['base'], c['ref'], name, g, w, got, want)
 	if o['out']['t'][4] != want[4]:
 		return 'join(%r, %r) port slot: got %r, expected %r' % (c['base'], c['ref'], o['out']['t'][4], want[4])
+	alt = o.get('alt')
+	if alt:
+		if alt['ident']:
+			return 'join(%r, %r) returned the base object itself' % (c['base'], c['ref'])
+		for way in ('str', 'obj', 'tuple', 'dict', 'bytes'):
+			a = alt[way]
+			if 'err' in a:
+				return 'join(%r, reference %r given as %s) raised: %s' % (c['base'], c['ref'], way, a)
+			for name, g, w in zip(NAMES, a['pub'], want):
+				if g != w:
+					return 'join(%r, reference %r given as %s) %s: got %r, RFC 3986 5.2.2 + normalisation gives %r (result %r, expected %r)' % (c['base'], c['ref'], way, name, g, w, a['pub'], want)
+			if a['out'] != o['out']:
+				return 'join(%r, reference %r given as %s) differs from the result for the reference given as bytes: %r vs %r' % (c['base'], c['ref'], way, a['out'], o['out'])
+			if a['ident'] or not a['refsame']:
+				return 'join(%r, reference %r given as %s) returned or modified one of its arguments' % (c['base'], c['ref'], way)
+		if alt['after'] != o['base']:
+			return 'join modified the base URI (reference %r given in other forms)' % (c['ref'],)
 	return None
 
 
@@ -226,6 +545,8 @@ def classify(c, o, fail):
 		return 'D20b-empty-authority-host'
 	if rs is None and ra is None and rp == '' and rq == '' and bq and ' query: ' in fail:
 		return 'D20c-empty-query'
+	if rq and set(rq) <= set('&=') and ' query: ' in fail:
+		return 'D20e-separator-only-query'
 	if ' path: ' in fail:
 		if rs is not None and ra is None and ('..' in segs or '.' in segs):
 			return 'D20d-scheme-ref-hostless-dots'
@@ -237,6 +558,8 @@ def classify(c, o, fail):
 
 
 def nontrivial(c, o):
+	if c['k'] == 'seq':
+		return ('seq', repr(c['base']), repr(c['ops']))
 	if c['k'] != 'join' or 'err' in o or 'harness_exception' in o:
 		return ('r', c.get('base'), c['ref']) if c['k'] != 'join' else None
 	if o['out']['t'] == o['base']['t']:
